@@ -15,6 +15,8 @@ Definition z_sort : list zconstr -> res (list zconstr) := sort_c Z Z.compare.
 Definition z_invert : list zconstr -> option (res (list zconstr)) := invert Z Z.compare.
 Definition z_normalize : list zconstr -> list Z -> res (list zconstr) := normalize Z Z.compare.
 Definition z_from_versions : list Z -> res (list zconstr) := from_versions Z Z.compare.
+Definition z_nonvacuous : list zconstr -> bool := nonvacuous Z Z.compare.
+Definition z_mem : list zconstr -> Z -> bool := mem Z Z.compare.
 
 (* ---- class-level dispatch (C14, C12) ---- *)
 From Coq Require Import String.
